@@ -110,8 +110,12 @@ def atom_str(a) -> str:
 
 
 def arg_str(x) -> str:
-  if isinstance(x, tuple) and len(x) == 2 and x[0] == 'rf':
+  if isinstance(x, tuple) and x and x[0] == 'rf':
     return x[1]
+  if isinstance(x, tuple) and x and x[0] == 'seq':
+    return '[' + ', '.join(arg_str(y) for y in x[1:]) + ']'
+  if isinstance(x, tuple) and x and x[0] == 'lit':
+    return str(x[1]).strip("'\"")
   return str(x)
 
 
